@@ -32,6 +32,7 @@ var wantPkgs = []string{"", "cfgtest", "cfgutil", "diff", "flag", "hjson", "json
 type Ctx struct {
 	RepoDir string
 	GOARCH  string
+	Overlay map[string][]byte
 	Fset    *token.FileSet
 	Pkgs    map[string]*packages.Package // keyed by path relative to the module ("" = root)
 	Prog    *ssa.Program
@@ -77,7 +78,7 @@ func Load(repo, goarch string, overlay map[string][]byte) *Ctx {
 	if err != nil {
 		undecidedf("LOAD-ERROR: %v", err)
 	}
-	c := &Ctx{RepoDir: repo, GOARCH: goarch, Fset: fset, Pkgs: map[string]*packages.Package{}, SSA: map[string]*ssa.Package{}}
+	c := &Ctx{RepoDir: repo, GOARCH: goarch, Overlay: overlay, Fset: fset, Pkgs: map[string]*packages.Package{}, SSA: map[string]*ssa.Package{}}
 	nerr := 0
 	packages.Visit(pkgs, nil, func(p *packages.Package) {
 		for _, e := range p.Errors {
